@@ -7,8 +7,10 @@ Open Scope string_scope.
 (* CHelp: lend through the delegation helper of the instance (a `&self` provided method whose default body calls a
    required method answered with make_ref: the value lives in the HELPER's chain, which belongs to the instance and is
    released with it).  CTouch: a `&mut self` provided method (AsMut<DefaultImplDelegator>): needs exclusive access,
-   so the harness gives up its references, but nothing is released. *)
-Inductive cop := CRef (ty v : N) | CMut (ty v : N) | CLive | CHelp (ty v : N) | CTouch.
+   so the harness gives up its references, but nothing is released.
+   CNvid: the builder call no_verify_in_drop() made late (it takes the instance by value: references are given up;
+   nothing is released). *)
+Inductive cop := CRef (ty v : N) | CMut (ty v : N) | CLive | CHelp (ty v : N) | CTouch | CNvid.
 
 Definition show_lval (x : lval) : string := dec (fst x) ++ ":" ++ dec (snd x).
 Definition show_held (l : list lval) : string := "[" ++ join "," (map show_lval l) ++ "]".
@@ -40,6 +42,9 @@ Definition cop_step (others : N) (ci : cinst) (o : cop) : cinst * string :=
   | CTouch =>
     let ci1 := {| ci_chain := ci_chain ci; ci_helper := ci_helper ci; ci_held := [] |} in
     (ci1, "[touch7] live=" ++ dec (others + ci_size ci1))
+  | CNvid =>
+    let ci1 := {| ci_chain := ci_chain ci; ci_helper := ci_helper ci; ci_held := [] |} in
+    (ci1, "[nvid] live=" ++ dec (others + ci_size ci1))
   | CLive => (ci, line (ci_held ci) (others + ci_size ci))
   end.
 
@@ -72,10 +77,21 @@ Fixpoint drops (sizes_rev : list N) (live : N) : list string :=
   | n :: rest => ("dropped live=" ++ dec (live - n)) :: drops rest (live - n)
   end.
 
+(* the harness' mock also holds ONE borrowed-return value configured with returns(): it lives in the shared call
+   pattern, i.e. from construction until the last instance (the original: clones go first) is dropped or verified *)
+Definition shared_values : N := 1.
+
+Fixpoint drops_shared (sizes_rev : list N) (live : N) : list string :=
+  match sizes_rev with
+  | [] => []
+  | [n] => ["dropped live=" ++ dec (live - n - shared_values)]
+  | n :: rest => ("dropped live=" ++ dec (live - n)) :: drops_shared rest (live - n)
+  end.
+
 Definition run_seq_case (ss : list (list cop)) : list string :=
-  let '(outs, sizes) := sessions 0 [] ss in
-  let e := "end live=" ++ dec (nsum sizes) in
-  (outs ++ [e] ++ drops (rev sizes) (nsum sizes))%list.
+  let '(outs, sizes) := sessions shared_values [] ss in
+  let e := "end live=" ++ dec (shared_values + nsum sizes) in
+  (outs ++ [e] ++ drops_shared (rev sizes) (shared_values + nsum sizes))%list.
 
 (* threads lending values of type 0 through one shared instance *)
 Definition run_thread_case (vss : list (list N)) (sched : list nat) : list string :=
